@@ -273,6 +273,20 @@ def unit_lemmas():
             generic_lemma("C05/lemma/mu-monotone-in-omega", mono)]
 
 
+def unit_rate_two_team(model, sizes, vec):
+    """the two-team order clauses are proved on the published update; this carries them to the
+    real rate(): for symbolic rank / score values (win, draw and loss are the three paths of the
+    sort) every posterior mu of rate() is, as an exact normal form, the published update of
+    that outcome - so a rate() that mis-routes an outcome (a tie rated as a win) fails here"""
+    out = []
+    for r in c01.unit_rate(model, sizes, vec, False, False):
+        if "/rate/mu@" in r["name"] or "/rate/returns@" in r["name"]:
+            r = dict(r)
+            r["name"] = r["name"].replace("C01/", "C05/").replace("/rate/mu@", "/rate/two-team/mu-is-the-published-update-of-the-outcome@")
+            out.append(r)
+    return out
+
+
 def units(tier):
     us = [("unit_lemmas", ())]
     nmax = 4 if tier == "quick" else 8
@@ -285,6 +299,9 @@ def units(tier):
             us.append(("unit_two_team", (m, sizes)))
         for sizes in ([(1, 1, 1)] if tier == "quick" else [(1, 1, 1), (2, 1, 1), (1, 1, 1, 1)]):
             us.append(("unit_rate_alone", (m, sizes)))
+        for sizes in ([(1, 1)] if tier == "quick" else [(1, 1), (2, 1), (2, 2)]):
+            for vec in ("ranks", "scores"):
+                us.append(("unit_rate_two_team", (m, sizes, vec)))
         for n in range(2, (4 if tier == "quick" else 6) + 1):
             if m in ("PlackettLuce", "BradleyTerryFull", "ThurstoneMostellerFull"):
                 us.append(("unit_swap_up", (m, n)))
@@ -304,7 +321,7 @@ def main(tier, seed):
             "A-fp: reals, not floats: that rounding inside v/w/vt cannot flip a sign for teams 5-8 deviations apart is NOT decided here (root cause D4 is decided by C17)",
             "A-exp: exp > 0, monotone (instances), exp(a+b) = exp a exp b",
             "contract clauses of v, vt assumed here and verified in C17: v > 0; v(x,t) >= vt(x,t) >= -v(-x,t); x >= 0 => vt(x,t) <= t; x <= 0 => vt(x,t) >= -t",
-            "two-team-order, swap-up, identical-teams are proved on the published update; they transfer to the code through the link obligations mu-equals-published-update (all tie patterns of every listed shape) and rate's sort (C02/C03)",
+            "two-team-order, swap-up, identical-teams are proved on the published update; they transfer to the code through the link obligations mu-equals-published-update (all tie patterns of every listed shape); for two teams the link is also proved on the real rate() for symbolic rank and score values (win / draw / loss are paths), for more teams rate's sort is C02/C03's business",
             "Thurstone-Mosteller partial pairing is linked with pair scale 2 (known finding K1 of C01)",
             "shape-bounded: n = 2..4 quick / 2..8 thorough; two-team sizes and swap-up/identical n listed in coverage.shapes",
         ],
